@@ -23,9 +23,9 @@ func c15MaxFlag() int {
 		return c15FlagCap
 	}
 	if verifTier() > 0 {
-		return 7
+		return 4
 	}
-	return 3 // quick tier: internal / external edges; thorough adds the subnode flag
+	return 3 // quick tier: internal / external edges; thorough adds the subnode flag (value 4) on its own
 }
 
 func c15Op(g *EscapeGraph, nodes []*Node) {
@@ -86,7 +86,7 @@ func c15LessEq(g, h *EscapeGraph) bool {
 
 func c15Bounds() (n, opsG, opsH int) {
 	if verifTier() > 0 {
-		return 2, 2, 2
+		return 2, 2, 1
 	}
 	return 2, 1, 1
 }
@@ -130,7 +130,8 @@ func Harness_C15_merge_laws() {
 // Harness_C15_monotone: operations are extensive, and a larger input graph never yields a smaller output graph for
 // AddEdge / MergeNodeStatus / Merge.
 func Harness_C15_monotone() {
-	n, opsG, _ := c15Bounds()
+	n, _, _ := c15Bounds()
+	opsG := 1
 	nodes := c15Nodes(n)
 	if verifTier() == 0 {
 		c15FlagCap = 1 // quick tier: the two graphs are built with internal edges only; the checked operation is general
